@@ -342,3 +342,21 @@ Proof. destruct a, k, nbin; reflexivity. Qed.
 Lemma histogram_api_engines_equal a x lo hi k nb :
   histogram_api EngC a x lo hi k nb = histogram_api EngPy a x lo hi k nb.
 Proof. unfold histogram_api. destruct (resolve a k nb); [apply histogram_engines_equal|reflexivity]. Qed.
+
+(* ---------------------------------------------------------------- counts without reverse indices *)
+Lemma c_loop_hist bn nbin s : forall i b oe h r,
+  snd (fst (c_loop bn nbin s i b oe h r)) = hist_loop bn nbin s h.
+Proof.
+  induction s as [|k ss IH]; intros i b oe h r; cbn [c_loop hist_loop]; [reflexivity|].
+  destruct (valid_bin nbin (bn k)); apply IH.
+Qed.
+
+Lemma hist_norev_chist bn nbin s :
+  hist_norev bn nbin s = fst (chist bn nbin s) /\ hist_norev bn nbin s = fst (pyhist bn nbin s).
+Proof.
+  rewrite <- engines_equal. assert (E : hist_norev bn nbin s = fst (chist bn nbin s)); [|split; exact E].
+  unfold hist_norev, chist.
+  rewrite <- (c_loop_hist bn nbin s 0 (-1) (nbin + 1) (zeros nbin) (zeros (Z.of_nat (length s) + nbin + 1))).
+  destruct (c_loop bn nbin s 0 (-1) (nbin + 1) (zeros nbin) (zeros (Z.of_nat (length s) + nbin + 1))) as [[[b oe] h] r].
+  reflexivity.
+Qed.
